@@ -158,6 +158,8 @@ namespace ratio
         if (f.is_fact)
         { // we apply interval-predicate whenever the fact becomes active..
             set_ni(lit(atm.get_sigma()));
+            if (get_solver().is_impulse(atm)) // a state-variable predicate can also be an impulse..
+                get_solver().get_impulse().apply_rule(atm);
             get_solver().get_interval().apply_rule(atm);
             restore_ni();
         }
